@@ -1,4 +1,5 @@
 """C02 -- each supported key adds exactly its documented podman option, value intact."""
+import os
 import vlib, gen_conv, docs, sdref
 from vlib import hx, unhx, case_line, show
 
@@ -77,7 +78,12 @@ def gen_key_case(rng, typ, key):
         ws = [rng.choice(["CAP_NET_ADMIN", "cap_sys_time", "ALL"]) for _ in range(rng.randint(1, 2))]
         return ["%s=%s" % (key, " ".join(ws))], [x for w in ws for x in (opt, w.lower())]
     if key == "AddDevice":
-        return ["AddDevice=/dev/null:/dev/x:rw"], ["--device", "/dev/null:/dev/x:rw"]
+        # a leading '-' makes the device optional: passed (without the '-') iff the host path before the first ':' exists
+        v = rng.choice(["/dev/null:/dev/x:rw", "/dev/null", "/dev/zero:/dev/z", "-/dev/null", "-/dev/null:/dev/x", "-/dev/null:/dev/x:rwm", "-/dev/zero:/dev/a:r",
+                        "-/dev/does-not-exist", "-/dev/does-not-exist:/dev/x:rwm", "/dev/does-not-exist:/dev/x:rwm"])
+        if v.startswith("-"):
+            return ["AddDevice=%s" % v], (["--device", v[1:]] if os.path.exists(v[1:].split(":")[0]) else [])
+        return ["AddDevice=%s" % v], ["--device", v]
     if key in ("Mask", "Unmask"):
         return ["%s=/proc/a:/proc/b" % key], ["--security-opt", "%s=/proc/a:/proc/b" % key.lower()]
     if key == "ExposeHostPort":
